@@ -252,6 +252,7 @@ pub fn explore(run: &RdRun, init: Box<dyn Rd>) -> Outcome {
     let mut nodes: Vec<Node> = vec![];
     let mut queue: VecDeque<(u32, Box<dyn Rd>, usize)> = VecDeque::new();
     let mut sigs: HashMap<String, u64> = HashMap::new();
+    crate::watchdog::set_context(serde_json::to_string(&json!({"base": replay_doc(&info, run.model, run.image, &[]), "alphabet": run.alphabet})).unwrap());
     let k0 = format!("{}@0", init.key());
     seen.insert(k0, 0);
     nodes.push(Node { parent: 0, op: None, depth: 0 });
@@ -259,10 +260,9 @@ pub fn explore(run: &RdRun, init: Box<dyn Rd>) -> Outcome {
     let mut sampled = false;
     while let Some((id, rd, pos)) = queue.pop_front() {
         let depth = nodes[id as usize].depth;
-        crate::watchdog::enter(|| {
-            serde_json::to_string(&json!({"property": run.property, "hang_at": replay_doc(&info, run.model, run.image, &path_to(&nodes, id as usize))})).unwrap()
-        });
-        for op in run.alphabet {
+        crate::watchdog::enter(|| serde_json::to_string(&path_to(&nodes, id as usize)).unwrap());
+        for (opi, op) in run.alphabet.iter().enumerate() {
+            crate::watchdog::set_aux(opi as u64);
             let exp = run.model.expect(op, pos, &info);
             if exp == Expect::Disabled {
                 continue;
